@@ -1,7 +1,7 @@
 """C02 — pos/size/head/tail locate each node.  DESIGN 3.C02 (relative geometry, linear integer arithmetic)."""
 import z3
 
-from vfkit import core, model
+from vfkit import bounded, core, model
 from vfkit.check import Plan
 from vfkit.sym import S, I, SymBool, SymInt, SymStr, ctx
 
@@ -50,6 +50,12 @@ def plan(tier, seed):
     pl.cases = c01.production_cases(want, reachable_only=True) + lexing.lexer_cases(want) + span_cases()
     pl.canaries = [canary()]
     pl.finite = [("C02-F/left-assoc-table", parsing.left_assoc_table), ("C02-F/grammar-facts", parsing.grammar_facts)]
+    ntok = 4 if tier == "quick" else 6
+
+    def roundtrip():
+        return bounded.run_native("c01_roundtrip", {"max_tokens": ntok, "seed": seed, "want": ["C02"],
+                                                   "known": bounded.known_for("C02", "C02-B")})
+    pl.bounded = [("C02-B/positions-locate-text (safety net, audit of A3/A8)", roundtrip)]
     pl.functions = sorted(set(parsing.functions_under_contract() + lexing.functions_under_contract()
                               + ["luqum.tree.Item.span"]))
     pl.min_obligations = len(parsing.productions()) * 4 + len(lexing.rules()) * 2
